@@ -102,6 +102,12 @@ CHECKS = {
         note="Partial: conflicting dimension records are kept (C19-a) and existing chains redefined (C19-b) — known findings with kernel-checked witnesses; registrations of dataset types / collections made before a refused import are outside the import's transaction and not modelled; quantum-backed source butlers are not constructible here. Trusted: Lean kernel; harness; YAML export format produced and consumed by the same code.",
         design="DESIGN.md §5 C19",
     ),
+    "C20": dict(
+        technique="Lean 4 proof (atomic-step interleaving model; commutation of every step that stays clear of a removal with each later step of the removal; reduction of any interleaving of a four-step removal with clear steps of any number of other clients to the uninterrupted schedule) + deterministic interleavings of two or three Butler clients on a real SQLite repository at every internal boundary of the removal, compared with the model and with all sequential orders",
+        text="clear_commutes_prune2q / prune2d / prune3 (for all states and all steps that do not concern the removed dataset id or its artifact path), move_across, removal_serializable (for all prefixes, all blocks of clear steps between the removal's steps and all suffixes, the interleaved schedule ends in the same state as the schedule with the removal uninterrupted), register_get_or_create, conflicting_puts_one_wins, chain_edits_not_lost, and the refutation witnesses reuse_race_loses_artifact / reuse_before_query_is_safe / reuse_sequential_orders_keep_it (known finding C20-a) are proved in Lean 4. On a real repository client A's pruneDatasets(purge / unstore) or removeRuns is paused at each internal boundary (after the first commit, after the trash query, after the file deletions) while clients B and C put (also into the slot being removed), associate, extend a chain, register a run, or purge another dataset; outcomes and final observable state must equal those of some sequential order, each executed on a fresh copy; purge schedules are also compared with the model.",
+        note="Partial: single-transaction operations are atomic steps only because SQLite holds the database lock for the whole write transaction; interleavings inside transactions (PostgreSQL row locks, Database.sync retry loops) are not executable here and not modelled. The schedule is imposed by callbacks in one process, not by threads. Two concurrent multi-step removals are covered by applying removal_serializable once per removal (each removal's later steps are clear of the other when they concern different datasets and paths). C20-a is a known finding. Trusted: Lean kernel; harness; SQLite locking.",
+        design="DESIGN.md §5 C20",
+    ),
     "C10": dict(
         technique="Lean 4 proof (exact state equations for purge over the registry+datastore model, corollaries of the C02 invariants) + history correspondence on a real Butler with existence probes of every dataset + set oracle",
         text="purge_exact (purge is always accepted and leaves exactly the old tables / datastore records / artifacts minus the targets), purge_members (membership of every collection = old minus targets), purge_others_untouched, purge_targets_gone, orphan_refused (the registry refuses to forget a dataset a datastore still holds, changing nothing), purge_inv, exists_flags_consistent, extDelete_flags are proved in Lean 4. The model is compared with a real Butler on seeded histories mixing puts, tagging, certification, chaining, the three prune modes, registry.removeDatasets, removeRuns and external deletion of artifacts; after every step exists(full_check) / _exists_many / stored / query membership / directory listing of every dataset ever created are compared with the model and with the harness's own sets.",
